@@ -5,7 +5,7 @@
 Require Extraction.
 Require Import ExtrOcamlBasic.
 From Coq Require Import List NArith ZArith.
-From SDB Require Import Base.Bytes Base.Assoc Params Model.Codec Model.Lock Model.Page Model.Pool Model.SqlRef Model.Catalog Model.Query Model.Wal Model.LogCodec Model.WalTrace Model.Sched Model.ReqMgr Model.Engine Model.IndexWrap Model.Trace Model.Join Model.SkipList Model.Startup Model.HashTable Model.Heap.
+From SDB Require Import Base.Bytes Base.Assoc Params Model.Codec Model.Lock Model.Page Model.Pool Model.SqlRef Model.Catalog Model.Query Model.Wal Model.LogCodec Model.WalTrace Model.Sched Model.ReqMgr Model.Engine Model.IndexWrap Model.Trace Model.Join Model.SkipList Model.Startup Model.HashTable Model.Heap Model.TupleCodec Model.CatalogRows.
 
 Extraction Blacklist List String Int.
 
@@ -53,4 +53,8 @@ Extraction "sdbmodel.ml"
   ht_empty ht_engine_empty ht_insert ht_ins_err ht_ins_stored ht_remove ht_get ht_live_count ht_occ_count ht_home ht_engine_blocks ht_block_array_size
   (* M2h table heap chain with pin accounting (C14) *)
   hp_go mkHpV hp_init hp_exec_l hp_run_l hp_run_ok hp_op_ok hp_pin_vector hp_trace_pins hp_scan_expected hp_flat hp_lookup hp_place hp_accepts hp_pin_safe hp_pin_run
+  (* M1t row (tuple) codec (C06) *)
+  tc_encode_row tc_tuple_size tc_decode_col tc_decode_row tc_get_value_in_bytes tc_row_wf tc_row_ok tc_readback
+  (* M11r catalog persistence: table / columns catalog heaps, reload (C10) *)
+  cr_boot cr_step cr_run cr_lookup_oid cr_lookup_name cr_refused cr_idx_legal cr_dump cr_oids cr_names cr_names_distinct cr_tabs_wf cr_reload cr_persist_t cr_persist_c cr_create_fits
   N.of_nat N.to_nat Z.of_N Z.to_N Z.compare N.compare.
